@@ -19,9 +19,9 @@ XML = """
 <mujoco>
   <option timestep="0.004"/>
   <worldbody>
-    <body pos="0 0 1"><joint name="h1" type="hinge" axis="0 1 0" range="-1 1" actuatorfrcrange="-2 2" actuatorfrclimited="{jl}"/><geom type="capsule" size=".04 .2"/>
+    <body pos="0 0 1" gravcomp="{gc}"><joint name="h1" type="hinge" axis="0 1 0" range="-1 1" actuatorfrcrange="-2 2" actuatorfrclimited="{jl}" actuatorgravcomp="{agc}"/><geom type="capsule" size=".04 .2"/>
       <site name="s1" pos=".1 0 0"/>
-      <body pos=".4 0 0"><joint name="h2" type="hinge" axis="0 1 0"/><geom type="capsule" size=".03 .15"/><site name="s2" pos=".1 0 0"/></body></body>
+      <body pos=".4 0 0" gravcomp="{gc}"><joint name="h2" type="hinge" axis="0 1 0"/><geom type="capsule" size=".03 .15"/><site name="s2" pos=".1 0 0"/></body></body>
     <body pos="1 0 1"><joint name="sl" type="slide" axis="0 0 1"/><geom size=".05"/></body>
   </worldbody>
   <tendon><fixed name="t1" limited="false"><joint joint="h1" coef="1"/><joint joint="h2" coef="-0.5"/></fixed></tendon>
@@ -49,7 +49,13 @@ def _run(ctx, ncases, rec):
       fl, jl = str(rng.choice(["true", "false"])), str(rng.choice(["true", "false"]))
       clamp = rng.random() < 0.3
       early = rng.random() < 0.3
-      xml = XML.format(dyn=dyn, fl=fl, jl=jl)
+      # gravity compensation routed through the actuator channel (actuatorgravcomp) is added BEFORE the joint's actuator force range
+      # clamps the total: both features on the same joint, with compensation large enough to matter
+      agc = str(rng.choice(["true", "false"]))
+      gc = float(rng.choice([0.0, 1.0, 2.5]))
+      if c % 3 == 0:
+        jl, agc, gc = "true", "true", 2.5   # every third case: limited joint + compensation through the actuator channel
+      xml = XML.format(dyn=dyn, fl=fl, jl=jl, agc=agc, gc=gc)
       if clamp:
         xml = xml.replace("<option ", '<option><flag clampctrl="disable"/></option>\n  <option ')
       if early:
@@ -79,7 +85,8 @@ def _run(ctx, ncases, rec):
                      "forward.fwd_actuation", "vs-mujoco-" + nm, xml=xml, ctrl=mjd.ctrl.tolist(), act=mjd.act.tolist(), qpos=mjd.qpos.tolist(), qvel=mjd.qvel.tolist())
             break
       acc.hit(dyn)
-      acc.sample({"dyn": dyn, "forcelimited": fl, "actuatorfrclimited": jl, "clampctrl_disabled": clamp, "actearly": early})
+      acc.hit(f"gravcomp-actuator:{agc}:{gc}:{jl}")
+      acc.sample({"dyn": dyn, "forcelimited": fl, "actuatorfrclimited": jl, "actuatorgravcomp": agc, "gravcomp": gc, "clampctrl_disabled": clamp, "actearly": early})
 
   if rec:
     kc, _ = intercept(KERNELS, scenario, rng, max_tids=16, per_kernel=3)
